@@ -79,6 +79,17 @@ def gen(rng, tier):
         # z = x = y
         yield grp("ref", [zero(0, prec=x.prec, mode=x.mode), x, clone(x)], "%s 0 1 2" % op, 0, "z=x=y")
         yield grp("alias", [clone(x)], "%s 0 0 0" % op, 0, "z=x=y")
+    # zero / infinite operands: the exact special result (value, sign, accuracy) must not depend on the receiver's history
+    for _ in range(80 * n):
+        gid += 1
+        op = rng.choice(["Add", "Sub", "Mul", "Quo"])
+        sp = lambda: rng.choice([zero(0, prec=5), zero(1, prec=5), inf(0, prec=5), inf(1, prec=5)])
+        x = sp() if rng.random() < 0.7 else common.rand_fin(rng, 20, wide=False)
+        y = sp() if rng.random() < 0.7 else common.rand_fin(rng, 20, wide=False)
+        p, md = rng.choice([0, 1, 5, 34]), rng.randint(0, 5)
+        yield dict(family="special-" + op, group="%d-sp" % gid, resvar=0, vars=[zero(0, prec=p, mode=md), x, y], ops=["%s 0 1 2" % op])
+        for _ in range(3):
+            yield dict(family="special-" + op, group="%d-sp" % gid, resvar=0, vars=[dirty_receiver(rng, p, md), x, y], ops=["%s 0 1 2" % op])
     for _ in range(6 * n):
         gid += 1
         wy = rng.choice([100, 101, 110, 128])
